@@ -61,7 +61,7 @@ def shards(tier, seed):
     return out
 
 
-GOOD = '(a / alpha :ARG0 (b / beta))'
+GOOD = '(a / alpha :ARG0 (b / beta) :consist-of (c / x :ARG1-of b))'
 BAD1 = '# ::id 7\n(a / alpha :foo b)'
 BAD2 = '(a / alpha\n   :foo b\n   :bar (c / x :ARG0-of-of-of a :ARG1-of a))'
 KINDS = {'E': ('()', None), 'G': (GOOD, []), 'B': (BAD1, [('a', ':foo', 'b')]), 'C': (BAD2, [('a', ':foo', 'b'), ('a', ':bar', 'c'), ('a', ':ARG0-of-of', 'c')])}
@@ -208,6 +208,14 @@ def _check_tool(case, ctx):
                 with open(p, 'w', encoding='utf-8') as fh:
                     fh.write(_text(c))
                 argv.append(p)
+        if not case['quiet'] and not case.get('subprocess') and len(''.join(contents)) <= 3:
+            # the exit status must not depend on the output notation
+            code_t, out_t, err_t = cli.run_main(argv + ['--triples'], stdin)
+            any_bad_t = any(k in 'BCE' for k in ''.join(contents))
+            ctx.transitions += 1
+            if (code_t != 0) != any_bad_t:
+                ctx.fail('--check --triples: exit status non-zero exactly when some graph has an error', expected='non-zero' if any_bad_t else 0, observed=code_t)
+                return
         if case.get('subprocess'):
             code, out, err = cli.run_subprocess(argv, stdin)
             code2, out2, err2 = cli.run_main(argv, stdin)
